@@ -397,6 +397,32 @@ def step (s : State) : Op → State × Obs
   | .timer now d o u t => let r := handleTimer s now d o u t; (r.1, .timer r.2)
   | .incoming now p st rt b => let r := handleIncoming s now p st rt b; (r.1, .incoming r.2)
 
+/-! ### the calls a step makes to its `SourceController`, in order
+
+`process_message`: `controller.set_usable(usable)` — computed on the snapshot of the NEW state — and only then the two
+`controller.handle_measurement` calls (outgoing, incoming); `handle_timer`: `set_usable` when a request goes out. -/
+
+inductive Call where
+  | setUsable (b : Bool)
+  | measurement (m : Meas) (outgoing : Bool)
+deriving Repr, DecidableEq
+
+def InOut.calls : InOut → List Call
+  | .accepted u m _ => [.setUsable u, .measurement m true, .measurement m false]
+  | _ => []
+
+def TimerOut.calls : TimerOut → List Call
+  | .send i => [.setUsable i.usable]
+  | _ => []
+
+def Obs.calls : Obs → List Call
+  | .timer o => o.calls
+  | .incoming o => o.calls
+
+/-- the order string the harness' recording controller logs: `u` = set_usable, `m` = handle_measurement -/
+def callsOrd (cs : List Call) : String :=
+  String.mk (cs.map fun c => match c with | .setUsable _ => 'u' | .measurement _ _ => 'm')
+
 /-- run an op list; returns the final state and the (state-after, observation) trace -/
 def run (s : State) : List Op → State × List (State × Obs)
   | [] => (s, [])
